@@ -6,16 +6,16 @@ import Amoco.Model.SemDsl
 namespace Generated.Rv
 open Amoco.Rv
 
-/-- from amoco/arch/riscv/rv32i/asm.py (sha256 63fa869fd23e0c2c) -/
+/-- from amoco/arch/riscv/rv32i/asm.py (sha256 64f333c1b9f67b51) -/
 def rv32_tab : List (Mn × Sem) := [
   (.LUI, [(.assign .pc (.bin .add .pc .ilen)), (.guardNZ 0 (.assign (.opnd 0) (.opnd 1)))]),
-  (.AUIPC, [(.assign .pc (.bin .add .pc .ilen)), (.guardNZ 0 (.assign (.opnd 0) (.bin .add .pc (.opnd 1))))]),
+  (.AUIPC, [(.guardNZ 0 (.assign (.opnd 0) (.bin .add .pc (.opnd 1)))), (.assign .pc (.bin .add .pc .ilen))]),
   (.JAL, [(.guardNZ 0 (.assign (.opnd 0) (.bin .add .pc .ilen))), (.assign .pc (.bin .add .pc (.opnd 1)))]),
-  (.JALR, [(.guardNZ 0 (.assign (.opnd 0) (.bin .add .pc .ilen))), (.assign .pc (.bin .add (.opnd 1) (.opnd 2)))]),
+  (.JALR, [(.bind (.bin .and (.bin .add (.opnd 1) (.opnd 2)) (.int (-2)))), (.guardNZ 0 (.assign (.opnd 0) (.bin .add .pc .ilen))), (.assign .pc (.loc 0))]),
   (.BEQ, [(.assign .pc (.tst (.bin .eq (.opnd 0) (.opnd 1)) (.bin .add .pc (.opnd 2)) (.bin .add .pc .ilen)))]),
   (.BNE, [(.assign .pc (.tst (.bin .ne (.opnd 0) (.opnd 1)) (.bin .add .pc (.opnd 2)) (.bin .add .pc .ilen)))]),
-  (.BLT, [(.assign .pc (.tst (.bin .lt (.opnd 0) (.opnd 1)) (.bin .add .pc (.opnd 2)) (.bin .add .pc .ilen)))]),
-  (.BGE, [(.assign .pc (.tst (.bin .ge (.opnd 0) (.opnd 1)) (.bin .add .pc (.opnd 2)) (.bin .add .pc .ilen)))]),
+  (.BLT, [(.assign .pc (.tst (.bin .lt (.signed (.opnd 0)) (.signed (.opnd 1))) (.bin .add .pc (.opnd 2)) (.bin .add .pc .ilen)))]),
+  (.BGE, [(.assign .pc (.tst (.bin .ge (.signed (.opnd 0)) (.signed (.opnd 1))) (.bin .add .pc (.opnd 2)) (.bin .add .pc .ilen)))]),
   (.BLTU, [(.assign .pc (.tst (.bin .ltu (.opnd 0) (.opnd 1)) (.bin .add .pc (.opnd 2)) (.bin .add .pc .ilen)))]),
   (.BGEU, [(.assign .pc (.tst (.bin .geu (.opnd 0) (.opnd 1)) (.bin .add .pc (.opnd 2)) (.bin .add .pc .ilen)))]),
   (.LB, [(.assign .pc (.bin .add .pc .ilen)), (.assign (.opnd 0) (.sext (.opnd 1) 32))]),
@@ -27,7 +27,7 @@ def rv32_tab : List (Mn × Sem) := [
   (.SH, [(.assign .pc (.bin .add .pc .ilen)), (.assign (.opnd 0) (.slc (.opnd 1) 0 16))]),
   (.SW, [(.assign .pc (.bin .add .pc .ilen)), (.assign (.opnd 0) (.opnd 1))]),
   (.ADDI, [(.assign .pc (.bin .add .pc .ilen)), (.guardNZ 0 (.assign (.opnd 0) (.bin .add (.opnd 1) (.opnd 2))))]),
-  (.SLTI, [(.assign .pc (.bin .add .pc .ilen)), (.guardNZ 0 (.assign (.opnd 0) (.tst (.bin .lt (.opnd 1) (.opnd 2)) (.cst 1 32) (.cst 0 32))))]),
+  (.SLTI, [(.assign .pc (.bin .add .pc .ilen)), (.guardNZ 0 (.assign (.opnd 0) (.tst (.bin .lt (.signed (.opnd 1)) (.signed (.opnd 2))) (.cst 1 32) (.cst 0 32))))]),
   (.SLTIU, [(.assign .pc (.bin .add .pc .ilen)), (.guardNZ 0 (.assign (.opnd 0) (.tst (.bin .ltu (.opnd 1) (.opnd 2)) (.cst 1 32) (.cst 0 32))))]),
   (.XORI, [(.assign .pc (.bin .add .pc .ilen)), (.guardNZ 0 (.assign (.opnd 0) (.bin .xor (.opnd 1) (.opnd 2))))]),
   (.ORI, [(.assign .pc (.bin .add .pc .ilen)), (.guardNZ 0 (.assign (.opnd 0) (.bin .or (.opnd 1) (.opnd 2))))]),
@@ -38,7 +38,7 @@ def rv32_tab : List (Mn × Sem) := [
   (.ADD, [(.assign .pc (.bin .add .pc .ilen)), (.guardNZ 0 (.assign (.opnd 0) (.bin .add (.opnd 1) (.opnd 2))))]),
   (.SUB, [(.assign .pc (.bin .add .pc .ilen)), (.guardNZ 0 (.assign (.opnd 0) (.bin .sub (.opnd 1) (.opnd 2))))]),
   (.SLL, [(.assign .pc (.bin .add .pc .ilen)), (.guardNZ 0 (.assign (.opnd 0) (.bin .shl (.unsigned (.opnd 1)) (.bin .and (.unsigned (.opnd 2)) (.int 31)))))]),
-  (.SLT, [(.assign .pc (.bin .add .pc .ilen)), (.guardNZ 0 (.assign (.opnd 0) (.tst (.bin .lt (.opnd 1) (.opnd 2)) (.cst 1 32) (.cst 0 32))))]),
+  (.SLT, [(.assign .pc (.bin .add .pc .ilen)), (.guardNZ 0 (.assign (.opnd 0) (.tst (.bin .lt (.signed (.opnd 1)) (.signed (.opnd 2))) (.cst 1 32) (.cst 0 32))))]),
   (.SLTU, [(.assign .pc (.bin .add .pc .ilen)), (.guardNZ 0 (.assign (.opnd 0) (.tst (.bin .ltu (.opnd 1) (.opnd 2)) (.cst 1 32) (.cst 0 32))))]),
   (.XOR, [(.assign .pc (.bin .add .pc .ilen)), (.guardNZ 0 (.assign (.opnd 0) (.bin .xor (.opnd 1) (.opnd 2))))]),
   (.SRL, [(.assign .pc (.bin .add .pc .ilen)), (.guardNZ 0 (.assign (.opnd 0) (.bin .shr (.unsigned (.opnd 1)) (.bin .and (.unsigned (.opnd 2)) (.int 31)))))]),
@@ -53,16 +53,16 @@ def rv32_tab : List (Mn × Sem) := [
 def rv32_extra : List String := []
 def rv32_notes : List String := []
 
-/-- from amoco/arch/riscv/rv64i/asm.py (sha256 79e26e81a1ce1679) -/
+/-- from amoco/arch/riscv/rv64i/asm.py (sha256 d3bc9d021a9cbf9a) -/
 def rv64_tab : List (Mn × Sem) := [
   (.LUI, [(.assign .pc (.bin .add .pc .ilen)), (.guardNZ 0 (.assign (.opnd 0) (.opnd 1)))]),
-  (.AUIPC, [(.assign .pc (.bin .add .pc .ilen)), (.guardNZ 0 (.assign (.opnd 0) (.bin .add .pc (.opnd 1))))]),
+  (.AUIPC, [(.guardNZ 0 (.assign (.opnd 0) (.bin .add .pc (.opnd 1)))), (.assign .pc (.bin .add .pc .ilen))]),
   (.JAL, [(.guardNZ 0 (.assign (.opnd 0) (.bin .add .pc .ilen))), (.assign .pc (.bin .add .pc (.opnd 1)))]),
-  (.JALR, [(.guardNZ 0 (.assign (.opnd 0) (.bin .add .pc .ilen))), (.assign .pc (.bin .add (.opnd 1) (.opnd 2)))]),
+  (.JALR, [(.bind (.bin .and (.bin .add (.opnd 1) (.opnd 2)) (.int (-2)))), (.guardNZ 0 (.assign (.opnd 0) (.bin .add .pc .ilen))), (.assign .pc (.loc 0))]),
   (.BEQ, [(.assign .pc (.tst (.bin .eq (.opnd 0) (.opnd 1)) (.bin .add .pc (.opnd 2)) (.bin .add .pc .ilen)))]),
   (.BNE, [(.assign .pc (.tst (.bin .ne (.opnd 0) (.opnd 1)) (.bin .add .pc (.opnd 2)) (.bin .add .pc .ilen)))]),
-  (.BLT, [(.assign .pc (.tst (.bin .lt (.opnd 0) (.opnd 1)) (.bin .add .pc (.opnd 2)) (.bin .add .pc .ilen)))]),
-  (.BGE, [(.assign .pc (.tst (.bin .ge (.opnd 0) (.opnd 1)) (.bin .add .pc (.opnd 2)) (.bin .add .pc .ilen)))]),
+  (.BLT, [(.assign .pc (.tst (.bin .lt (.signed (.opnd 0)) (.signed (.opnd 1))) (.bin .add .pc (.opnd 2)) (.bin .add .pc .ilen)))]),
+  (.BGE, [(.assign .pc (.tst (.bin .ge (.signed (.opnd 0)) (.signed (.opnd 1))) (.bin .add .pc (.opnd 2)) (.bin .add .pc .ilen)))]),
   (.BLTU, [(.assign .pc (.tst (.bin .ltu (.opnd 0) (.opnd 1)) (.bin .add .pc (.opnd 2)) (.bin .add .pc .ilen)))]),
   (.BGEU, [(.assign .pc (.tst (.bin .geu (.opnd 0) (.opnd 1)) (.bin .add .pc (.opnd 2)) (.bin .add .pc .ilen)))]),
   (.LB, [(.assign .pc (.bin .add .pc .ilen)), (.assign (.opnd 0) (.sext (.opnd 1) 64))]),
@@ -72,9 +72,9 @@ def rv64_tab : List (Mn × Sem) := [
   (.LHU, [(.assign .pc (.bin .add .pc .ilen)), (.assign (.opnd 0) (.zext (.opnd 1) 64))]),
   (.SB, [(.assign .pc (.bin .add .pc .ilen)), (.assign (.opnd 0) (.slc (.opnd 1) 0 8))]),
   (.SH, [(.assign .pc (.bin .add .pc .ilen)), (.assign (.opnd 0) (.slc (.opnd 1) 0 16))]),
-  (.SW, [(.assign .pc (.bin .add .pc .ilen)), (.assign (.opnd 0) (.opnd 1))]),
+  (.SW, [(.assign .pc (.bin .add .pc .ilen)), (.assign (.opnd 0) (.slc (.opnd 1) 0 32))]),
   (.ADDI, [(.assign .pc (.bin .add .pc .ilen)), (.guardNZ 0 (.assign (.opnd 0) (.bin .add (.opnd 1) (.opnd 2))))]),
-  (.SLTI, [(.assign .pc (.bin .add .pc .ilen)), (.guardNZ 0 (.assign (.opnd 0) (.tst (.bin .lt (.opnd 1) (.opnd 2)) (.cst 1 64) (.cst 0 64))))]),
+  (.SLTI, [(.assign .pc (.bin .add .pc .ilen)), (.guardNZ 0 (.assign (.opnd 0) (.tst (.bin .lt (.signed (.opnd 1)) (.signed (.opnd 2))) (.cst 1 64) (.cst 0 64))))]),
   (.SLTIU, [(.assign .pc (.bin .add .pc .ilen)), (.guardNZ 0 (.assign (.opnd 0) (.tst (.bin .ltu (.opnd 1) (.opnd 2)) (.cst 1 64) (.cst 0 64))))]),
   (.XORI, [(.assign .pc (.bin .add .pc .ilen)), (.guardNZ 0 (.assign (.opnd 0) (.bin .xor (.opnd 1) (.opnd 2))))]),
   (.ORI, [(.assign .pc (.bin .add .pc .ilen)), (.guardNZ 0 (.assign (.opnd 0) (.bin .or (.opnd 1) (.opnd 2))))]),
@@ -84,12 +84,12 @@ def rv64_tab : List (Mn × Sem) := [
   (.SRAI, [(.assign .pc (.bin .add .pc .ilen)), (.guardNZ 0 (.assign (.opnd 0) (.bin .sar (.opnd 1) (.opnd 2))))]),
   (.ADD, [(.assign .pc (.bin .add .pc .ilen)), (.guardNZ 0 (.assign (.opnd 0) (.bin .add (.opnd 1) (.opnd 2))))]),
   (.SUB, [(.assign .pc (.bin .add .pc .ilen)), (.guardNZ 0 (.assign (.opnd 0) (.bin .sub (.opnd 1) (.opnd 2))))]),
-  (.SLL, [(.assign .pc (.bin .add .pc .ilen)), (.guardNZ 0 (.assign (.opnd 0) (.bin .shl (.unsigned (.opnd 1)) (.bin .and (.unsigned (.opnd 2)) (.int 31)))))]),
-  (.SLT, [(.assign .pc (.bin .add .pc .ilen)), (.guardNZ 0 (.assign (.opnd 0) (.tst (.bin .lt (.opnd 1) (.opnd 2)) (.cst 1 64) (.cst 0 64))))]),
+  (.SLL, [(.assign .pc (.bin .add .pc .ilen)), (.guardNZ 0 (.assign (.opnd 0) (.bin .shl (.unsigned (.opnd 1)) (.bin .and (.unsigned (.opnd 2)) (.int 63)))))]),
+  (.SLT, [(.assign .pc (.bin .add .pc .ilen)), (.guardNZ 0 (.assign (.opnd 0) (.tst (.bin .lt (.signed (.opnd 1)) (.signed (.opnd 2))) (.cst 1 64) (.cst 0 64))))]),
   (.SLTU, [(.assign .pc (.bin .add .pc .ilen)), (.guardNZ 0 (.assign (.opnd 0) (.tst (.bin .ltu (.opnd 1) (.opnd 2)) (.cst 1 64) (.cst 0 64))))]),
   (.XOR, [(.assign .pc (.bin .add .pc .ilen)), (.guardNZ 0 (.assign (.opnd 0) (.bin .xor (.opnd 1) (.opnd 2))))]),
-  (.SRL, [(.assign .pc (.bin .add .pc .ilen)), (.guardNZ 0 (.assign (.opnd 0) (.bin .shr (.unsigned (.opnd 1)) (.bin .and (.unsigned (.opnd 2)) (.int 31)))))]),
-  (.SRA, [(.assign .pc (.bin .add .pc .ilen)), (.guardNZ 0 (.assign (.opnd 0) (.bin .sar (.signed (.opnd 1)) (.bin .and (.unsigned (.opnd 2)) (.int 31)))))]),
+  (.SRL, [(.assign .pc (.bin .add .pc .ilen)), (.guardNZ 0 (.assign (.opnd 0) (.bin .shr (.unsigned (.opnd 1)) (.bin .and (.unsigned (.opnd 2)) (.int 63)))))]),
+  (.SRA, [(.assign .pc (.bin .add .pc .ilen)), (.guardNZ 0 (.assign (.opnd 0) (.bin .sar (.signed (.opnd 1)) (.bin .and (.unsigned (.opnd 2)) (.int 63)))))]),
   (.OR, [(.assign .pc (.bin .add .pc .ilen)), (.guardNZ 0 (.assign (.opnd 0) (.bin .or (.opnd 1) (.opnd 2))))]),
   (.AND, [(.assign .pc (.bin .add .pc .ilen)), (.guardNZ 0 (.assign (.opnd 0) (.bin .and (.opnd 1) (.opnd 2))))]),
   (.FENCE, [(.assign .pc (.bin .add .pc .ilen))]),
